@@ -7,6 +7,7 @@ QV.Model.States — model of the three neural-state classes:
 -/
 import QV.Model.Rbm
 import QV.Model.Hilbert
+import QV.Model.CallShape
 namespace QV
 
 variable {α : Type} [Add α] [Mul α] [Neg α] [Sub α] [Div α] [Zero α] [One α] [Transc α]
@@ -37,6 +38,48 @@ def probability (am : RBM α n h) (v : Fin n → α) (Z : α) : α :=
 
 /-- `normalization(space)` = `rbm_am.partition(space)` -/
 def normalization (am : RBM α n h) {N : Nat} (space : Fin N → Fin n → α) : α := am.partition space
+
+/-! ### the public methods on TENSORS (vector `(n,)`, batch `(B, n)`, rank-3 `(B1, B2, n)` arguments): the shape side.
+`rbm_am.effective_energy` carries `@auto_unsqueeze_args()` (`RBM.effectiveEnergy`); everything else is elementwise on its
+result, except `PositiveWaveFunction.phase`, which is decorated itself and builds its result from `v.shape[0]`. -/
+
+/-- `PositiveWaveFunction.phase(v)` for one visible state: zero (positive_wavefunction.py:94-106) -/
+def phasePos (_v : Fin n → α) : α := 0
+
+/-- `WaveFunctionBase.amplitude(v)` on a tensor (wavefunction.py:33-45): `(-rbm_am.effective_energy(v)).exp().sqrt()` -/
+def amplitudeCall (am : RBM α n h) (v : FT (Fin n → α)) : Except PyErr (FT α) :=
+  (am.effectiveEnergy v).map (FT.map fun e => Transc.sqrt (Transc.exp (-e)))
+
+/-- `ComplexWaveFunction.phase(v)` on a tensor (complex_wavefunction.py:130-143): `-0.5 * rbm_ph.effective_energy(v)` -/
+def phaseCall (ph : RBM α n h) (v : FT (Fin n → α)) : Except PyErr (FT α) :=
+  (ph.effectiveEnergy v).map (FT.map fun e => (-(1 / two)) * e)
+
+/-- `PositiveWaveFunction.phase(v)` on a tensor (positive_wavefunction.py:94-106): `@auto_unsqueeze_args()` around
+`torch.zeros(v.shape[0])` — ONE leading axis of the (unsqueezed) argument, whatever its rank: for a rank-3 argument
+`(B1, B2, n)` the result is `(B1,)`, not `(B1, B2)` (scope note C01-1; `psi` of the positive state never calls it) -/
+def phasePosCall (v : FT (Fin n → α)) : Except PyErr (FT α) :=
+  autoUnsqueeze1 (fun w : FT (Fin n → α) =>
+    match w.shape with
+    | B :: _ => .ok ⟨[B], fun idx => phasePos (w.get [idx.headD 0])⟩
+    | [] => .ok ⟨[n], fun _ => 0⟩) v
+
+/-- `WaveFunctionBase.psi(v)` (wavefunction.py:62-81): `amplitude, phase = self.amplitude(v), self.phase(v)`, then
+`make_complex(amplitude * phase.cos(), amplitude * phase.sin())` (elementwise, broadcasting), for a given `phase` method -/
+def psiBase (am : RBM α n h) (phaseM : FT (Fin n → α) → Except PyErr (FT α)) (v : FT (Fin n → α)) :
+    Except PyErr (FT (CPair α)) :=
+  FT.bzipE (fun x p => (x * Transc.cos p, x * Transc.sin p)) (amplitudeCall am v) (phaseM v)
+
+/-- `ComplexWaveFunction.psi(v)` = the base-class method with `ComplexWaveFunction.phase` -/
+def psiCplxCall (am ph : RBM α n h) : FT (Fin n → α) → Except PyErr (FT (CPair α)) := psiBase am (phaseCall ph)
+
+/-- the OVERRIDE `PositiveWaveFunction.psi(v)` (positive_wavefunction.py:108-124): `make_complex(self.amplitude(v))`
+(imaginary part `zeros_like`) -/
+def psiPosCall (am : RBM α n h) (v : FT (Fin n → α)) : Except PyErr (FT (CPair α)) :=
+  (amplitudeCall am v).map (FT.map fun x => (x, 0))
+
+/-- `NeuralStateBase.probability(v, Z)` on a tensor (neural_state.py:90-105): `(-rbm_am.effective_energy(v)).exp() / Z` -/
+def probabilityCall (am : RBM α n h) (v : FT (Fin n → α)) (Z : α) : Except PyErr (FT α) :=
+  (am.effectiveEnergy v).map (FT.map fun e => Transc.exp (-e) / Z)
 
 end Wave
 
